@@ -326,13 +326,15 @@ def check_forms(rec, h, w, vals):
              sample=case)
     data = {k: v for k, v in cells_for(h, w, vals).items() if v is not None}
     forms = {'bounded': f'D!{rng(h, w)}', 'columns': f'D!A:{COLS[w - 1]}',
-             'rows': f'D!1:{h}'}
+             'rows': f'D!1:{h}', 'name': 'the_rect'}
+    names = {'the_rect': f'D!$A$1:${COLS[w - 1]}${h}'}
     cells = {}
     for i, func in enumerate(FUNCS):
         for j, (name, text) in enumerate(forms.items()):
             cells[f'{COLS[j]}{i + 1}'] = f'={func}({text})'
     try:
-        model = compile_spec({'sheets': {'D': data, 'F': cells}})
+        model = compile_spec({'sheets': {'D': data, 'F': cells},
+                              'names': names})
         for i, func in enumerate(FUNCS):
             want = expected(func, vals)
             for j, name in enumerate(forms):
